@@ -1,6 +1,112 @@
+(** C17 — op ids are unique and FContexts are safe to share and clone.
+    Model/Context.v: an explicit heap of maps (so aliasing is expressible) plus the global
+    counter; each FContext method / Clone / ReadRequestHeader is one atomic step (the mutex and
+    atomic.AddUint64 are the assumptions), so "every interleaving of goroutines" is "every
+    operation sequence", which is what the theorems quantify over. *)
 From Coq Require Import ZArith List.
-From FV Require Import Model.Context.
-(* placeholder until the proofs land: see Proofs/ContextProofs.v *)
-Theorem c17_placeholder_init : forall start, next_op (init start) = start.
-Proof. reflexivity. Qed.
-Print Assumptions c17_placeholder_init.
+From FV Require Import Base.Res Base.Bytes Model.Headers Model.Receivers Model.Context
+  Proofs.HeadersMapProofs Proofs.ContextProofs.
+Import ListNotations.
+Open Scope Z_scope.
+
+(** every two contexts ever created, cloned or received in a process carry different op ids, as
+    long as nobody overwrites the reserved _opid request header and fewer than 2^64 exist *)
+Theorem c17_opids_distinct : forall start ops s k1 k2 c1 c2,
+  0 <= start < two64 -> all_reserved_free ops -> run (init start) ops = Some s ->
+  Z.of_nat (length (ctxs s)) <= two64 ->
+  nth_error (ctxs s) k1 = Some c1 -> nth_error (ctxs s) k2 = Some c2 -> k1 <> k2 ->
+  opid_of s c1 <> opid_of s c2.
+Proof. exact opids_distinct. Qed.
+Print Assumptions c17_opids_distinct.
+
+(** the op id of the k-th context is the k-th value of the counter (consecutive, mod 2^64) *)
+Theorem c17_opids_consecutive : forall start ops s,
+  0 <= start < two64 -> all_reserved_free ops -> run (init start) ops = Some s ->
+  next_op s = (start + Z.of_nat (length (ctxs s))) mod two64
+  /\ forall k c, nth_error (ctxs s) k = Some c ->
+       lookup opid_header (req_of s c) = Some (format_uint ((start + Z.of_nat k + 1) mod two64)).
+Proof.
+  intros start ops s Hs Hrf Hrun.
+  exact (proj2 (run_ids start ops (init start) s (good_init start) (ids_init start Hs) Hrf Hrun)).
+Qed.
+Print Assumptions c17_opids_consecutive.
+
+(** decimal op-id strings identify the counter value *)
+Theorem c17_opid_strings_injective : forall a b,
+  0 <= a < two64 -> 0 <= b < two64 -> format_uint a = format_uint b -> a = b.
+Proof. exact format_uint_inj. Qed.
+Print Assumptions c17_opid_strings_injective.
+
+(** in every reachable state every map slot (request / response / own ephemeral map of every
+    context, every map a getter handed out, every protocol object's map) has its own address *)
+Theorem c17_all_maps_separate : forall start ops s,
+  run (init start) ops = Some s -> separated s /\ keys_ok s /\ shared_ok s.
+Proof.
+  intros start ops s H. destruct (run_good ops (init start) s (good_init start) H) as [A B C]. auto.
+Qed.
+Print Assumptions c17_all_maps_separate.
+
+(** Clone: equal request headers except a fresh _opid, equal response headers, equal ephemeral
+    properties (hence equal correlation id and timeout), all in NEW maps; the original is untouched *)
+Theorem c17_clone_equal_but_opid : forall s i s' ci,
+  good s -> step s (OClone i) = Some s' -> nth_error (ctxs s) i = Some ci ->
+  exists c', ctxs s' = ctxs s ++ [c']
+    /\ req_of s' c' = assign (req_of s ci) opid_header (format_uint ((next_op s + 1) mod two64))
+    /\ resp_of s' c' = resp_of s ci
+    /\ eph_of s' c' = eph_of s ci
+    /\ c_own_eph c' = true
+    /\ next_op s' = (next_op s + 1) mod two64
+    /\ req_of s' ci = req_of s ci /\ resp_of s' ci = resp_of s ci /\ eph_of s' ci = eph_of s ci.
+Proof. exact clone_spec. Qed.
+Print Assumptions c17_clone_equal_but_opid.
+
+(** later changes on either side are invisible to the other: an operation addressed to context j
+    (add header, set timeout, merge response headers) changes no map of any other context i —
+    original and clone included, whichever is i and whichever j *)
+Theorem c17_clone_separate : forall s o s' i j ci,
+  good s -> step s o = Some s' -> addressed_to o = Some j -> i <> j ->
+  nth_error (ctxs s) i = Some ci ->
+  req_of s' ci = req_of s ci /\ resp_of s' ci = resp_of s ci
+  /\ (c_own_eph ci = true -> eph_of s' ci = eph_of s ci).
+Proof. exact other_context_unchanged. Qed.
+Print Assumptions c17_clone_separate.
+
+(** maps returned by RequestHeaders() / ResponseHeaders() / EphemeralProperties() are fresh copies:
+    writing into one changes no context at all *)
+Theorem c17_getters_do_not_alias : forall s u k v s' i ci,
+  good s -> step s (OMutUser u k v) = Some s' -> nth_error (ctxs s) i = Some ci ->
+  req_of s' ci = req_of s ci /\ resp_of s' ci = resp_of s ci /\ eph_of s' ci = eph_of s ci.
+Proof. exact user_map_write_changes_no_context. Qed.
+Print Assumptions c17_getters_do_not_alias.
+
+Theorem c17_getter_returns_fresh_copy : forall s i m s' ci,
+  good s -> step s (OGet i m) = Some s' -> nth_error (ctxs s) i = Some ci ->
+  exists a, umaps s' = umaps s ++ [a] /\ a = length (heap s) /\ get s' a = get s (sel ci m)
+            /\ (forall x b, slot_addr s x = Some b -> b <> a).
+Proof. exact getter_returns_fresh_copy. Qed.
+Print Assumptions c17_getter_returns_fresh_copy.
+
+(** every operation leaves every map it is not addressed to exactly as it was *)
+Theorem c17_frame : forall s o s', step s o = Some s' ->
+  (length (heap s) <= length (heap s'))%nat
+  /\ (forall a, (a < length (heap s))%nat -> target s o <> Some a -> get s' a = get s a)
+  /\ (exists l, ctxs s' = ctxs s ++ l)
+  /\ (exists l, umaps s' = umaps s ++ l)
+  /\ (exists l, protos s' = protos s ++ l).
+Proof. exact step_frame. Qed.
+Print Assumptions c17_frame.
+
+(** non-vacuity: a history with a created, a cloned and a received context, header writes on both
+    sides of the clone and a write into a getter's copy *)
+Example c17_nonvacuous :
+  let ops := [ONew [99]; OAdd 0 MReq [107] [118]; OClone 0; OAdd 1 MReq [107] [119];
+              OGet 0 MReq; OMutUser 0 [107] [120]; ONewProto;
+              ORecv 0 [(opid_header, [55]); ([102], [103])]; OSetTimeout 2 1500000] in
+  match run (init 0) ops with
+  | Some s => length (ctxs s) = 3%nat
+              /\ map (opid_of s) (ctxs s) = [[49]; [50]; [51]]
+              /\ lookup [107] (req_of s (nth 0 (ctxs s) (Build_ctx 0 0 0 true))) = Some [118]
+              /\ lookup [107] (req_of s (nth 1 (ctxs s) (Build_ctx 0 0 0 true))) = Some [119]
+  | None => False
+  end.
+Proof. vm_compute. repeat split. Qed.
